@@ -472,7 +472,7 @@ func prefixEq(a, b []byte, n int) bool {
 }
 
 // specBypass: C53 stated directly.
-func specBypass(rules []rule, di dialInfo) (bool, string) {
+func specBypass(rules []rule, di dialInfo) (by bool, why string) {
 	if di.ip != nil {
 		a, _ := netip.AddrFromSlice(di.ip)
 		a = a.Unmap()
@@ -490,22 +490,27 @@ func specBypass(rules []rule, di dialInfo) (bool, string) {
 		}
 		return false, "ip-no-match"
 	}
+	// names are compared without the trailing dot of a fully qualified spelling, on both sides
+	name := strings.TrimSuffix(di.host, ".")
+	if name != di.host {
+		why = "rooted-"
+	}
 	for _, r := range rules {
 		switch r.kind {
 		case "zone":
-			if di.host == r.name {
-				return true, "zone-apex"
+			if name == r.name {
+				return true, why + "zone-apex"
 			}
-			if strings.HasSuffix(di.host, "."+r.name) {
-				return true, "zone-sub"
+			if strings.HasSuffix(name, "."+r.name) {
+				return true, why + "zone-sub"
 			}
 		case "host":
-			if di.host == r.name {
-				return true, "host"
+			if name == r.name {
+				return true, why + "host"
 			}
 		}
 	}
-	return false, "name-no-match"
+	return false, why + "name-no-match"
 }
 
 func exec(ops []string, o *vu.Out) {
